@@ -56,6 +56,10 @@ func (q *UnsafeQuery) Close() {
 	}
 	q.cursor.archetype = -2
 	q.cursor.table = -2
+	// Make sure Next panics after a query was closed early,
+	// as it does after the iteration finished.
+	q.cursor.index = 0
+	q.cursor.maxIndex = -1
 	q.tables = nil
 	q.table = nil
 	q.world.unlockSafe(q.lock)
